@@ -104,12 +104,20 @@ def record_untouched(r, old_r):
             and r['event_time'] == old_r['event_time'] and r['expected'] == old_r['expected'])
 
 
+def other_command_lists_untouched(old):
+    """no list other than the in-flight list of a job is mutated by the re-entered code (planned groups, popped groups
+    still being triggered and the caller's local copies keep their members)"""
+    return forall('List[ProcessCommand]', lambda l: implies(
+        is_alloc(old(l)),
+        exists(ApplicationJobs, lambda j: is_alloc(old(j)) and old(j).current_jobs is l) or l == old(l)))
+
+
 def reentrancy_discipline(old):
     return (forall(ApplicationJobs, lambda j: implies(is_alloc(old(j)), keeps_list(j, old)))
             and forall(ApplicationJobs, lambda j: implies(is_alloc(old(j)), only_removed_or_triggered(j, old)))
             and forall(ApplicationJobs, lambda j: implies(is_alloc(old(j)), plan_only_shrinks(j, old)))
             and forall(ApplicationJobs, lambda j: implies(is_alloc(old(j)), in_flight_untouched(j, old)))
-            and reports_untouched(old))
+            and reports_untouched(old) and other_command_lists_untouched(old))
 
 
 @contract('statemachine:FiniteStateMachine.on_process_state_event', props=[])
@@ -119,7 +127,7 @@ class FsmOnProcessStateEvent:
     may be re-entered (and, through Starter.after / Stopper.after, the other Commander too).  Nothing is framed (no
     modifies clause: anything may change).  What is ASSUMED of the re-entered code is reentrancy_discipline:
     * job_discipline for every ApplicationJobs alive before the call;
-    * reports_untouched.
+    * reports_untouched; other_command_lists_untouched.
     NOT assumed: that Commander.current_jobs / planned_jobs of the re-entered Commanders are unchanged - a re-entrant
     Commander.next retires any job that does not look in progress and may trigger the next applications; nor that the
     in-flight list of a job keeps its members (a re-entrant on_event removes completed commands).
